@@ -609,6 +609,19 @@ class Runner(object):
 # ----------------------------------------------------------------------------------------------------------------------
 # workloads
 # ----------------------------------------------------------------------------------------------------------------------
+BIG_CHUNKS = [1000000, 1024000, 1024001, 1048576, 2500000]
+
+
+def big_chunk_specs():
+    """'any chunk size': chunks of a megabyte and more (a caller moving large files asks for them), with files just below, at and
+    above one and two chunks"""
+    for c in BIG_CHUNKS:
+        for cls in ("c-1", "c", "c+1", "2c+1"):
+            for direction in ("upload", "download"):
+                yield dict(kind="grid", seed="grid-big", chunk=c, size_class=cls, direction=direction, filter="none",
+                           api="generic" if (BIG_CHUNKS.index(c) + len(cls)) % 2 else "file", dest="absent")
+
+
 def grid_specs():
     for c in CHUNKS:
         for cls in SIZE_CLASSES:
@@ -661,6 +674,11 @@ def run(ctx):
                     break
                 runner.run_case(spec)
                 ctx.count("sibling_name_transfers")
+            for spec in big_chunk_specs():
+                if runner.dead or ctx.enough():
+                    break
+                runner.run_case(spec)
+                ctx.count("transfers_with_chunks_of_a_megabyte_and_more")
         rng = ctx.rng
         for i in range(ctx.budget(60, 20000)):
             if runner.dead or ctx.enough():
